@@ -81,7 +81,7 @@ func Run(r *evid.Run) {
 	ks := keys(r.Thorough())
 	n := len(ks)
 	encs := make([][]byte, n)
-	r.Rule(fmt.Sprintf("%d keys = every byte string of length 1..3 over {00,01,61,FE,FF} plus boundary lengths {1018,1019,1020,1023,1024} x 4 fill patterns: all keys for round trip through DecodeBytes and the stream Decoder, all ordered pairs for injectivity and order preservation, all triples (lo,k,hi) for range membership, and every key through a real FSM (put alone; wildcard read and delete; index lookups intact). Non-trivial: the pair/triple has distinct members; distinct = distinct (relation outcome) tuples", n))
+	r.Rule(fmt.Sprintf("%d keys = every byte string of length 1..3 over {00,01,61,FE,FF} plus boundary lengths {1018,1019,1020,1023,1024} x 4 fill patterns: all keys for round trip through DecodeBytes and the stream Decoder, all ordered pairs for injectivity and order preservation, all triples (lo,k,hi) for range membership, and every key through a real FSM (put alone; wildcard read and delete; index lookups intact); sibling sweep: for every shared-prefix length 0..1023 the keys p^n+a, p^n+b, p^n+a\\x00 and p^n itself through a real FSM (each alone, built up, torn down) with point reads, counted point deletes of absent siblings and transaction reads against the reference map. Non-trivial: the pair/triple has distinct members; distinct = distinct (relation outcome) tuples", n))
 	// round trips
 	for i, k := range ks {
 		e, err := enc(k)
@@ -169,6 +169,18 @@ func Run(r *evid.Run) {
 			r.Violate(v[0], v[1], Case{Kind: "fsm", I: int(i)})
 		}
 	})
+	// sibling sweep: for EVERY shared-prefix length n in 0..1023, keys that differ only after n shared
+	// bytes (and the shared prefix itself) stay distinct keys for point reads, point deletes and
+	// transaction reads of the store
+	maxN := 1023
+	par.For(int64(maxN+1), r.Expired, func(i int64) {
+		vs := runSiblings(int(i))
+		r.Outcome(fmt.Sprintf("sib%d", i), true)
+		for _, v := range vs {
+			r.Violate(v[0], v[1], Case{Kind: "sibling", I: int(i)})
+		}
+	})
+	r.Extra("sibling_prefix_lengths", maxN+1)
 	r.Sample(map[string]any{"pair": []string{qk(ks[3]), qk(ks[40])}, "triple": []string{qk(ks[tk[1]]), qk(ks[tk[5]]), qk(ks[tk[9]])}, "fsm_key": qk(ks[n-1])})
 	r.Assume("byte-wise lexicographic order (bytes.Compare) is the order of the store (pebble DefaultComparer.Compare, as configured in pebble/pebble.go)")
 }
@@ -178,6 +190,96 @@ func b2u(b bool) uint64 {
 		return 1
 	}
 	return 0
+}
+
+// runSiblings: a = p^n+"a", b = p^n+"b", c = p^n (n>0), d = p^n+"a\x00": every single-key read, counted
+// single-key delete and transaction read addresses exactly its own key, whichever of the others exist.
+func runSiblings(n int) (vs [][2]string) {
+	env := fsmx.NewEnv()
+	inst, _, err := env.Open("t", 10001, fsm.RecoveryTypeSnapshot)
+	if err != nil {
+		return [][2]string{{"open-error", err.Error()}}
+	}
+	defer inst.Close()
+	m := refkv.New()
+	p := bytes.Repeat([]byte{'p'}, n)
+	a := string(p) + "a"
+	b := string(p) + "b"
+	d := string(p) + "a\x00"
+	ks := []string{a, b, d}
+	if n > 0 {
+		ks = append(ks, string(p))
+	}
+	idx := uint64(0)
+	apply := func(c *regattapb.Command) bool {
+		idx++
+		out, err := inst.Update([]sm.Entry{fsmx.Entry(idx, c)})
+		if err != nil {
+			vs = append(vs, [2]string{"sibling/update-error", fmt.Sprintf("n=%d %s: %v", n, fsmx.CmdStr(c), err)})
+			return false
+		}
+		v, cr := m.Apply(idx, fsmx.Wire(c))
+		if g, w := fsmx.NormalizeObserved(out[0]), fsmx.ExpectStr(v, cr); g != w {
+			vs = append(vs, [2]string{"sibling/result-names-another-key", fmt.Sprintf("shared prefix %d bytes, %s: got %s want %s", n, short(fsmx.CmdStr(c)), short(g), short(w))})
+		}
+		return true
+	}
+	reads := func(tag string) {
+		for _, k := range ks {
+			req := &regattapb.RequestOp_Range{Key: []byte(k)}
+			got, err := inst.Range(req)
+			if err != nil {
+				vs = append(vs, [2]string{"sibling/read-error", err.Error()})
+				continue
+			}
+			if g, w := fsmx.RangeStr(got), fsmx.RangeStr(m.Range(req)); g != w {
+				vs = append(vs, [2]string{"sibling/point-read-answers-with-another-key", fmt.Sprintf("shared prefix %d bytes, %s, key ..%q: got %s want %s", n, tag, k[max(0, len(k)-2):], short(g), short(w))})
+			}
+			// the same read inside a read-only transaction and inside a writing one
+			if !apply(Txn(nil, []*regattapb.RequestOp{OpGet(k, nil, 0, false, false)}, nil)) {
+				return
+			}
+		}
+	}
+	// each key alone, then pairs building up, with counted point deletes of absent siblings in between
+	for _, first := range ks {
+		if !apply(Put(first, "v-"+first[max(0, len(first)-2):], false)) {
+			return
+		}
+		reads("one key present")
+		for _, other := range ks {
+			if other == first {
+				continue
+			}
+			if !apply(Del(other, nil, true, true)) { // absent: must delete nothing
+				return
+			}
+		}
+		reads("after deleting absent siblings")
+		if !apply(Del(first, nil, true, true)) {
+			return
+		}
+	}
+	for _, k := range ks {
+		if !apply(Put(k, "w-"+k[max(0, len(k)-2):], true)) {
+			return
+		}
+		reads("building up")
+	}
+	for _, k := range ks {
+		if !apply(Del(k, nil, true, true)) {
+			return
+		}
+		reads("tearing down")
+	}
+	return vs
+}
+
+func short(s string) string {
+	if len(s) > 300 {
+		return s[:120] + "…" + s[len(s)-120:]
+	}
+	return s
 }
 
 // runFSM: key put alone; wildcard read returns it; bookkeeping untouched by extreme deletes.
